@@ -214,7 +214,11 @@ CLAIMED = {
                 "cache path grant one operation at a time; the cache write is split in two), a one-preemption sweep over "
                 "every k-th traced line of the first request after start-up covers the lazy tables, and bursts against "
                 "real Threading/Forking servers on loopback (plaintext + TLS, one silent client) cover accept-liveness and "
-                "reaping; TLC validates every execution against spec/trace/TraceC14.tla.",
+                "reaping. spec/MC_Race.tla (three workers on one cache file that is absent, complete, complete-but-seen-"
+                "too-early by one worker, or the remains of a crashed writer) is checked exhaustively and its simulated "
+                "interleavings are replayed in worker processes of their own (a request that kills the server is an "
+                "observation); yield points include the read after the open, a file mapping and unlink/rename. "
+                "TLC validates every execution against spec/trace/TraceC14.tla.",
         "note": "Trusted: TLC; the scheduler and line tracer in harness/c14.py; preemption bound 1 for lazy tables; live bursts "
                 "use generous (60 s) socket timeouts - a stalled machine could turn into an incomplete-response report; "
                 "responses compared modulo Last-Modified / Mod-Date.",
@@ -231,27 +235,36 @@ CLAIMED = {
                 "NoRefresh at every request. Histories are what the property quantifies over, so bounded-exhaustive "
                 "plus simulated histories bound to the code is the right level.",
         "note": "Trusted: TLC; listing lexers and timestamp virtualisation in harness/cachelib.py; content universe of two "
-                "files with two metadata versions plus a fixed sub-directory; protocols Gopher, Gopher+ (+), HTTP.",
+                "files (one empty) with two metadata versions, a fixed sub-directory and a UMN link file; protocols Gopher, "
+                "Gopher+ (+ and $), HTTP GET and HTTP HEAD (prepare without save); 'touched' = the cache file's times moved "
+                "although nobody opened it for writing.",
     },
     "C11": {
         "text": "MC_C11 (spec/Cache.tla with two freely interleaved workers, Cut to any shorter prefix and Zero-fill at any "
                 "moment) is model-checked exhaustively within bounds; on the real code EVERY byte prefix 0..size-1 and a "
                 "zero-filled copy of real cache files replaces the file and the directory is requested again per "
                 "protocol; TLC validates each history against TraceC10 (Answered, Faithful, Harmless). Crash points are "
-                "enumerated completely for the sampled directories.",
-        "note": "Trusted: TLC; harness/cachelib.py lexers; abstraction of a byte prefix to 'fewer than Full chunks'. The "
-                "reader/writer race itself is exercised on real threads under C14.",
+                "enumerated completely for the sampled directories; the same is done for the ZIP index cache files and for "
+                "a writer that dies after n bytes while rewriting an expired cache. Schedules: spec/MC_Race.tla with the "
+                "schedule in the state yields EVERY complete interleaving of two requests that meet a damaged, absent, "
+                "complete or seen-too-early cache file; each is replayed on real handler threads (worker processes) and "
+                "judged by TraceC14.",
+        "note": "Trusted: TLC; harness/cachelib.py lexers; abstraction of a byte prefix to 'fewer than Full chunks'; the "
+                "cooperative scheduler of harness/c14.py (yield points: stat, open, read after open, mapping, listdir, "
+                "write pieces, unlink/rename on the cache path).",
     },
     "C19": {
         "text": "Exhaustive TLC model check of the start-up state machine (spec/Startup.tla, MC_C19: all 16 "
-                "chroot/setuid/setgid/TLS combinations x every failing call, OS permission model) AND every "
+                "chroot/setuid/setgid/TLS combinations plus an unreadable usechroot value x started by root or by an "
+                "ordinary account x started from elsewhere / a look-alike sibling of the root / inside the root x every "
+                "failing call incl. the account look-ups, OS permission model) AND every "
                 "initial state replayed into the real initialization.initialize() under recording substitutes, plus "
                 "every call the real code made failing in turn; TLC validates each recorded call sequence against "
                 "the same actions and evaluates every clause (BindFirst, ChrootFirst, GroupsBeforeGid, GidBeforeUid, "
-                "ChrootComplete, FullyDropped, FailAborts) in every state. The configuration space is finite and "
+                "ChrootComplete, FullyDropped, FailAborts, GarbledAborts) in every state. The configuration space is finite and "
                 "fully enumerated, so this is the right level.",
         "note": "Trusted: TLC; the OS permission model in Startup.tla (root needed for chroot/setgroups/setgid); "
-                "the recorder substitutes for os/pwd/grp/ssl/socket/configparser (harness/c19.py); real uid/gid "
-                "changes are never performed.",
+                "the recorder substitutes for os/pwd/grp/ssl/socket/configparser (harness/c19.py), which also emulate the "
+                "kernel's refusals for a non-root starter; real uid/gid changes are never performed.",
     },
 }
